@@ -461,7 +461,8 @@ func runC17(p *engine.Prog, r *engine.Report) {
 				}
 				n++
 				var probs []string
-				for _, g := range nonStructural(fi.Guards(call.Block())) {
+				// (guards with helper predicates such as isActive(tar) looked through)
+				for _, g := range nonStructural(fi.Deep().Guards(call.Block())) {
 					switch {
 					case strings.Contains(g, "targetsFromGroup(") && strings.Contains(g, ".1,nil)"):
 					case strings.Contains(g, "Labels).Len(") || strings.Contains(g, "DiscoveredLabels("):
